@@ -47,7 +47,7 @@ def spec_to_oracle(spec: dict) -> str:
     for st in spec["stages"]:
         ctx = {k: v for k, v in st.get("ctx", {}).items() if k.startswith("k") and k[1:].isdigit()}
         en = st.get("enabled")
-        out.append("STAGE reqs=%s join=%s thr=%d cof=%d fp=%d en=%s mutex=%s choice=%s maxj=%s ctx=%s tasks=%d" % (
+        out.append("STAGE reqs=%s join=%s thr=%d cof=%d fp=%d en=%s mutex=%s choice=%s maxj=%s ctx=%s tasks=%d dis=%s" % (
             ",".join(str(idx[r]) for r in sorted(st.get("reqs", []), key=lambda r: idx[r])),
             st.get("join", "AND"), st.get("threshold", 0),
             1 if st.get("ctx", {}).get("continuePipelineOnFailure") else 0,
@@ -56,7 +56,7 @@ def spec_to_oracle(spec: dict) -> str:
             "-" if st.get("mutex") is None else str(kname(st["mutex"])),
             "-" if st.get("choice") is None else str(kname(st["choice"])),
             "-" if st.get("ctx", {}).get("_max_jumps") is None else str(st["ctx"]["_max_jumps"]),
-            kv_str(ctx), len(st.get("tasks", []))))
+            kv_str(ctx), len(st.get("tasks", [])), ",".join(str(x) for x in st.get("skippable_disabled", []))))
     wm = spec.get("wctx", {}).get("_max_jumps")
     out.append("WMAX " + ("-" if wm is None else str(wm)))
     for i, st in enumerate(spec["stages"]):
@@ -116,10 +116,10 @@ def canon(a: dict, idx: dict, nexec: int) -> str:
     stages = {s["ref"]: s for s in a["stages"]}
     for ref, i in sorted(idx.items(), key=lambda p: p[1]):
         s = stages[ref]
-        b.append(" S%d %s %d%d v%d f%d [%s] b%d j%d q%d g%s e%d {%s} {%s} [%s];" % (
+        b.append(" S%d %s %d%d v%d f%d [%s] b%d j%d q%d g%s e%d p%d {%s} {%s} [%s];" % (
             i, s["status"], s["started"], s["ended"], s["version"], s["fired"],
             ",".join(str(idx[r]) for r in s["completed_branches"]), s["bypass"], s["jump_count"] or 0, s["buffered"],
-            "-" if s["signal"] is None else str(signame(s["signal"])), s["has_exception"],
+            "-" if s["signal"] is None else str(signame(s["signal"])), s["has_exception"], s.get("plan_pending", 0),
             kv_str(s["user_ctx"]), kv_str({k: v for k, v in s["outputs"].items() if k.startswith("k") and k[1:].isdigit()}),
             ",".join(t[0] + ("+" if t[2] else "-") for t in s["tasks"])))
     b.append(" | Q")
@@ -154,6 +154,8 @@ class Session:
         self.actions: list[tuple] = []
         self.traces: list[list[str]] = []     # per action: alpha after every write commit
         self.results: list[dict] = []
+        self.audit_marks: list[int] = []      # max audit seq after each action
+        self.ledger_marks: list[int] = []     # ledger length after each action
 
     def snap(self) -> str:
         return canon(self.env.alpha(), self.idx, len(self.env.ledger))
@@ -184,6 +186,8 @@ class Session:
         self.actions.append(a)
         self.traces.append(tr)
         self.results.append(r)
+        self.audit_marks.append(env.audit_max())
+        self.ledger_marks.append(len(env.ledger))
         return r
 
     def rows(self):
@@ -270,6 +274,7 @@ def families() -> dict[str, dict]:
     f["suspend"] = {"stages": [S("A", tasks=[["susp", "ok"]]), S("B", ["A"])]}
     f["mutex_pair"] = {"stages": [S("A"), S("B", ["A"], mutex="k1", tasks=[["ok"], ["ok"]]), S("C", ["A"], mutex="k1"), S("D", ["B", "C"])]}
     f["choice3"] = {"stages": [S("A"), S("B", ["A"], choice="k1"), S("C", ["A"], choice="k1"), S("D", ["A"], choice="k1")]}
+    f["skippable_disabled"] = {"stages": [S("A", tasks=[["ok"], ["ok"]], skippable_disabled=[0]), S("B", ["A"], tasks=[["ok"]], skippable_disabled=[0])]}
     f["taskless"] = {"stages": [S("A", tasks=[]), S("B", ["A"])]}
     return f
 
@@ -316,9 +321,25 @@ def random_spec(rng: random.Random, features: set[str]) -> dict:
 # schedule policies (chosen online from the real queue)
 # ------------------------------------------------------------------------------------------------
 
-def run_policy(sess: Session, rng: random.Random, policy: str, max_steps: int = 400, inject=None) -> None:
+def pick(rows: list[dict], rng: random.Random, policy: str) -> int:
+    """Realistic time: a delayed message (pushed with the 15 s retry delay / task backoff) is delivered
+    only when no undelayed message is pending; the policy orders the rest."""
+    now = [r["id"] for r in rows if not r.get("delayed")]
+    ids = now or [r["id"] for r in rows]
+    if policy in ("fifo",):
+        return ids[0]
+    if policy == "lifo":
+        return ids[-1]
+    if policy == "eager_delayed":       # adversarial w.r.t. budgets: ignore delays entirely
+        return rng.choice([r["id"] for r in rows])
+    return rng.choice(ids)
+
+
+def run_policy(sess: Session, rng: random.Random, policy: str, max_steps: int = 400, inject=None,
+               submit: bool = True) -> None:
     """inject(sess, step) may perform extra actions (recover, cancel, signal, cut) before a step"""
-    sess.do(("B",))
+    if submit:
+        sess.do(("B",))
     step = 0
     seen_noack: dict[int, int] = {}
     while step < max_steps:
@@ -327,22 +348,12 @@ def run_policy(sess: Session, rng: random.Random, policy: str, max_steps: int = 
         rows = sess.rows()
         if not rows:
             break
-        ids = [r["id"] for r in rows]
-        if policy == "fifo":
-            sess.do(("D", ids[0], True))
-        elif policy == "lifo":
-            sess.do(("D", ids[-1], True))
-        elif policy == "random":
-            sess.do(("D", rng.choice(ids), True))
-        elif policy == "redeliver":
-            rid = rng.choice(ids)
-            if rng.random() < 0.3 and seen_noack.get(rid, 0) < 3:
-                seen_noack[rid] = seen_noack.get(rid, 0) + 1
-                sess.do(("D", rid, False))
-            else:
-                sess.do(("D", rid, True))
+        rid = pick(rows, rng, "random" if policy == "redeliver" else policy)
+        if policy == "redeliver" and rng.random() < 0.3 and seen_noack.get(rid, 0) < 3:
+            seen_noack[rid] = seen_noack.get(rid, 0) + 1
+            sess.do(("D", rid, False))
         else:
-            raise ValueError(policy)
+            sess.do(("D", rid, True))
         step += 1
 
 
@@ -376,7 +387,8 @@ def run_case(case: dict) -> dict:
             "oracle_text": sess.oracle_text(), "ledger": env.ledger, "audit": env.audit(),
             "final": env.alpha(), "results": sess.results, "idx": sess.idx, "wall": time.time() - t0,
             "id_ref": env.id_ref, "task_ids": {k: list(v) for k, v in env.task_ids.items()},
-            "handled": env.handled,
+            "handled": env.handled, "audit_marks": sess.audit_marks, "ledger_marks": sess.ledger_marks,
+            "quiescent": len(env.rows()) == 0,
         }
         return out
     finally:
@@ -384,15 +396,7 @@ def run_case(case: dict) -> dict:
 
 
 def _drain(sess: Session, rng: random.Random, policy: str, max_steps: int):
-    step = 0
-    while step < max_steps:
-        rows = sess.rows()
-        if not rows:
-            break
-        ids = [r["id"] for r in rows]
-        rid = ids[0] if policy == "fifo" else rng.choice(ids)
-        sess.do(("D", rid, True))
-        step += 1
+    run_policy(sess, rng, policy, max_steps=max_steps, submit=False)
 
 
 def _run_crash(sess: Session, rng: random.Random, case: dict):
@@ -442,7 +446,7 @@ def _run_inject(sess: Session, rng: random.Random, case: dict):
             elif what == "cancel":
                 s.do(("C",))
             elif what == "signal":
-                s.do(("S", case["stage"], case.get("name", 1), case.get("persistent", True)))
+                s.do(("S", case["stage"], case.get("signame", 1), case.get("persistent", True)))
         if what == "recover_every":
             s.do(("R",))
     run_policy(sess, rng, case.get("policy", "fifo"), max_steps=case.get("max_steps", 400), inject=inj)
@@ -476,3 +480,180 @@ def run_batch(cases: list[dict], nproc: int = lib.NPROC) -> list[dict]:
         o["model_traces"] = m
         o["disagreement"] = diff_session(o["case"]["spec"], [tuple(a) for a in o["actions"]], o["traces"], m)
     return outs
+
+
+# ------------------------------------------------------------------------------------------------
+# per-property case plans, monitors, and the hook used by harness/props/cNN.py
+# ------------------------------------------------------------------------------------------------
+
+from harness import monitors as M  # noqa: E402
+
+CRASH_QUICK = ["chain3", "diamond", "multitask", "fail_terminal", "continue_on_failure", "poll", "transient2",
+               "first_of", "quorum", "self_loop"]
+
+
+def spec_key(spec) -> str:
+    return json.dumps(spec, sort_keys=True)
+
+
+def plan(pid: str, tier: str, rng: random.Random) -> list[dict]:
+    fam = families()
+    thorough = tier == "thorough"
+    cases: list[dict] = []
+
+    def add(**kw):
+        kw.setdefault("seed", rng.randrange(1 << 30))
+        kw.setdefault("max_steps", 150)
+        cases.append(kw)
+
+    def schedules(specs, pols, reps):
+        for name, spec in specs:
+            for pol in pols:
+                for _ in range(1 if pol in ("fifo", "lifo") else reps):
+                    add(kind="policy", policy=pol, spec=spec, name=name)
+
+    rnd = [("rand%d" % i, random_spec(rng, {"joins", "skip"})) for i in range(120 if thorough else 25)]
+    if pid in ("C02", "C03", "C05", "C06", "C09"):
+        schedules(list(fam.items()) + rnd, ["fifo", "lifo", "random", "redeliver"], 6 if thorough else 2)
+    if pid in ("C01", "C06", "C13"):
+        names = list(fam) if thorough else CRASH_QUICK
+        for n in names:
+            for at in range(0, 140 if thorough else 70):
+                add(kind="crash", at=at, spec=fam[n], name=n, drain="fifo")
+            if thorough:
+                for at in range(0, 60, 2):
+                    for second in range(0, 20, 3):
+                        add(kind="crash", at=at, second=second, spec=fam[n], name=n, drain="random")
+                    add(kind="crash", at=at, spec=fam[n], name=n, drain="random", recoveries=2)
+        if thorough:
+            for name, spec in rnd[:40]:
+                for at in range(0, 60, 3):
+                    add(kind="crash", at=at, spec=spec, name=name, drain="fifo")
+    if pid in ("C10", "C06"):
+        for n, spec in list(fam.items()) + (rnd[:30] if thorough else rnd[:6]):
+            for at in range(0, 40 if thorough else 24):
+                add(kind="inject", what="recover", at=at, times=1 + (at % 2), spec=spec, name=n,
+                    policy=("fifo" if at % 3 else "lifo"))
+            add(kind="inject", what="recover_every", at=-1, spec=spec, name=n, policy="fifo", max_steps=80)
+    if pid in ("C17", "C06"):
+        for n, spec in list(fam.items()) + (rnd[:30] if thorough else rnd[:6]):
+            for at in range(0, 40 if thorough else 24):
+                for pol in (("fifo", "random", "lifo") if thorough else ("fifo", "random")):
+                    add(kind="inject", what="cancel", at=at, spec=spec, name=n, policy=pol)
+    if pid in ("C18",):
+        sus = {"suspend": fam["suspend"],
+               "suspend2": {"stages": [S("A"), S("B", ["A"], tasks=[["ok"], ["susp", "ok:k1=1"]]), S("C", ["B"])]},
+               "suspend_twice": {"stages": [S("A", tasks=[["susp", "susp", "ok"]]), S("B", ["A"])]}}
+        for n, spec in sus.items():
+            stage = 1 if n == "suspend2" else 0
+            for at in range(0, 16):
+                for pers in (True, False):
+                    for pol in ("fifo", "random"):
+                        add(kind="inject", what="signal", stage=stage, signame=1 + (at % 3), persistent=pers, at=at,
+                            spec=spec, name=n, policy=pol)
+    return cases
+
+
+def base_policy(c: dict) -> str:
+    return c.get("policy") if c.get("policy") in ("fifo", "lifo") and c.get("kind") == "inject" else "fifo"
+
+
+def baselines(cases: list[dict]) -> dict:
+    """uninterrupted exactly-once runs (same deterministic delivery policy) of every spec in `cases`"""
+    specs = {}
+    for c in cases:
+        specs.setdefault((spec_key(c["spec"]), base_policy(c)), c)
+    outs = run_batch([{"kind": "policy", "policy": pol, "seed": 0, "spec": c["spec"], "name": c.get("name"),
+                       "max_steps": 400, "env": c.get("env", {})} for (k, pol), c in specs.items()])
+    return {(spec_key(o["case"]["spec"]), o["case"]["policy"]): o for o in outs}
+
+
+def monitor(pid: str, out: dict, base: dict | None) -> list[Violation]:
+    kind = out["case"]["kind"]
+    what = out["case"].get("what")
+    crashfree = kind in ("policy",) and out["case"]["policy"] != "eager_delayed"
+    vs: list[Violation] = []
+    if pid == "C06":
+        vs += M.m_c06(out)
+    if pid == "C02" and crashfree:
+        vs += M.m_c02(out)
+        if base is not None:
+            vs += M.m_outcome(out, base, "reordered/redelivered")
+    if pid == "C03":
+        vs += M.m_c03(out)
+    if pid == "C05" and crashfree:
+        vs += M.m_c05(out)
+    if pid == "C01" and kind == "crash" and base is not None:
+        vs += M.m_c01(out, base)
+    if pid == "C10" and kind == "inject" and what in ("recover", "recover_every") and base is not None:
+        vs += M.m_outcome(out, base, "recovery sweep in a healthy run", exec_slack={})
+    if pid == "C17" and what == "cancel":
+        vs += M.m_c17(out)
+    return vs
+
+
+def extend(ctx, res: RunResult, pid: str, extra_cases: list[dict] | None = None) -> list[dict]:
+    """run the engine correspondence for `pid` and merge the outcome into res; returns the raw outputs"""
+    cases = plan(pid, ctx.tier, ctx.rng) + (extra_cases or [])
+    if not cases:
+        return []
+    t0 = time.time()
+    outs = run_batch(cases)
+    base = baselines(cases)
+    ndis = 0
+    distinct = set()
+    dist = {"kinds": {}, "families": {}, "final_wf": {}, "actions_total": 0, "commits_compared": 0, "task_executions": 0}
+    for o in outs:
+        c = o["case"]
+        dist["kinds"][c["kind"] + ":" + str(c.get("what") or c.get("policy") or "")] = dist["kinds"].get(c["kind"] + ":" + str(c.get("what") or c.get("policy") or ""), 0) + 1
+        fam = re.sub(r"\d+$", "", c.get("name") or "?")
+        dist["families"][fam] = dist["families"].get(fam, 0) + 1
+        dist["final_wf"][o["final"]["wf"]] = dist["final_wf"].get(o["final"]["wf"], 0) + 1
+        dist["actions_total"] += len(o["actions"])
+        dist["commits_compared"] += sum(len(t) for t in o["traces"])
+        dist["task_executions"] += len(o["ledger"])
+        distinct.add(json.dumps(o["actions"]) + spec_key(c["spec"]))
+        d = o.get("disagreement")
+        if d:
+            ndis += 1
+            if len(res.disagreements) < 10:
+                res.disagreements.append({"engine_case": {k: v for k, v in c.items() if k != "spec"}, "spec": c["spec"],
+                                          "first_difference": {k: (v[:400] if isinstance(v, str) else v) for k, v in d.items()},
+                                          "actions": o["actions"][: (d.get("action_index") or 0) + 1]})
+        b = base.get((spec_key(c["spec"]), base_policy(c)))
+        if b is not None and b.get("disagreement") and len(res.disagreements) < 10:
+            res.disagreements.append({"engine_case": "fifo baseline", "spec": c["spec"], "first_difference": b["disagreement"]})
+        for v in monitor(pid, o, b):
+            res.violations.append(v)
+    res.evaluations += len(outs)
+    res.distinct_nontrivial += len(distinct)
+    res.traces_validated += len(outs)
+    res.rule = (res.rule + " | " if res.rule else "") + (
+        "engine: each case = (workflow spec, scripted task behaviour, online-chosen action list: deliver row / deliver "
+        "without ack / crash after k commits + restart / recovery sweep / cancel / signal); the real engine and the extracted "
+        "Coq model run the same list and alpha(db) is compared after every write commit; distinct = distinct (spec, action list); "
+        "all are non-trivial (>= 1 handler commit)")
+    if outs:
+        o = outs[min(len(outs) - 1, 3)]
+        res.samples.append({"name": o["case"].get("name"), "kind": o["case"]["kind"], "spec": o["case"]["spec"],
+                            "actions": o["actions"][:25], "final": {"wf": o["final"]["wf"], "stages": M.final_statuses(o)}})
+    res.distribution["engine"] = dist
+    res.extra["engine_wall_s"] = round(time.time() - t0, 1)
+    res.extra["engine_disagreements"] = ndis
+    return outs
+
+
+def replay(obj) -> bool:
+    """re-run a recorded engine replay against the implementation with the monitors of its property"""
+    r = obj["replay"]
+    pid = obj["property"]
+    case = dict(r.get("case", {}))
+    case["spec"] = r["spec"]
+    case["kind"] = "script"
+    case["actions"] = r["actions"]
+    out = run_batch([case], nproc=1)[0]
+    case2 = dict(r.get("case", {}), spec=r["spec"])
+    base = baselines([case2]).get((spec_key(case["spec"]), base_policy(case2)))
+    out["case"] = dict(out["case"], **{k: v for k, v in case2.items() if k in ("kind", "what", "policy")})
+    vs = monitor(pid, out, base)
+    return not any(v.signature == obj.get("signature") for v in vs) and not (obj.get("signature") is None and vs)
